@@ -19,13 +19,32 @@ int apply_calls;
 
 static int idx_of(sexp x) { for (int k = 0; k < N; k++) if (x == (sexp)EL(k)) return k; return -1; }
 
-/* comparator stub: (less a b) == value(a) < value(b); a consistent strict weak order */
+/* comparator stub: (less a b) == value(a) < value(b); a consistent strict weak order.
+ * With a key procedure (-DVERIF_GC, group merge_sort_key): (key x) allocates a fresh key object (a pair holding the element's
+ * index) and every application runs an adversarial collection first, which reclaims and havocs every pool pair that is not
+ * reachable from the variables on ctx->saves - a key object the sort does not keep rooted turns into garbage. */
+static struct proc_t key_obj;
 sexp sexp_apply (sexp ctx, sexp proc, sexp args) {
   apply_calls++;
+#ifdef VERIF_GC
+  vm_collect(ctx);
+  if (proc == (sexp)&key_obj) {
+    int ix = idx_of(sexp_car(args));
+    __CPROVER_assert(ix >= 0, "sort.key_arg: the key procedure is applied to an element of the input");
+    return vm_new_pair(sexp_make_fixnum(ix), SEXP_NULL);
+  }
+  sexp ka = sexp_car(args), kb = sexp_car(sexp_cdr(args));
+  __CPROVER_assert(proc == (sexp)&less_obj && sexp_pairp(ka) && sexp_pairp(kb), "sort.comparator_keys: the comparator is applied to two key objects");
+  long ja = sexp_unbox_fixnum(sexp_car(ka)), jb = sexp_unbox_fixnum(sexp_car(kb));
+  __CPROVER_assert(sexp_fixnump(sexp_car(ka)) && sexp_fixnump(sexp_car(kb)) && ja >= 0 && ja < N && jb >= 0 && jb < N, "gc.key_live: the key objects handed to the comparator are intact (not reclaimed between the two key computations)");
+  __CPROVER_assume(ja >= 0 && ja < N && jb >= 0 && jb < N);
+  return in_key[ja] < in_key[jb] ? SEXP_TRUE : SEXP_FALSE;
+#else
   sexp a = sexp_car(args), b = sexp_car(sexp_cdr(args));
   int ia = idx_of(a), ib = idx_of(b);
   __CPROVER_assert(proc == (sexp)&less_obj && ia >= 0 && ib >= 0, "sort.comparator_args: the comparator is applied to two elements of the input");
   return in_key[ia] < in_key[ib] ? SEXP_TRUE : SEXP_FALSE;
+#endif
 }
 sexp sexp_make_vector_op (sexp ctx, sexp self, sexp_sint_t n, sexp len, sexp dflt) {
   __CPROVER_assert(len == sexp_make_fixnum(N), "sort.scratch_length: the scratch vector has the length of the input");
@@ -81,6 +100,19 @@ void h_merge_sort_less(void) {            /* generic path: comparator procedure,
   OBL(sexp_context_saves(ctx) == NULL, "gc.release: preserve chain restored");
   REACH();
 }
+
+#ifdef VERIF_GC
+void h_merge_sort_key(void) {             /* comparator and key procedure, a collection at every application */
+  sexp ctx; setup(&ctx);
+  key_obj.h.tag = SEXP_PROCEDURE; verif_register(&key_obj);
+  vm_stack_obj.h.tag = SEXP_STACK; vm_stack_obj.length = VM_STACK_SLOTS; vm_stack_obj.top = 0; verif_register(&vm_stack_obj); sexp_context_stack(ctx) = (sexp)&vm_stack_obj;
+  sexp r = sexp_merge_sort_less(ctx, in_vec.data, scratch_vec.data, 0, N - 1, (sexp)&less_obj, (sexp)&key_obj);
+  OBL(!sexp_exceptionp(r), "merge_sort_key.no_error: total comparator and key raise nothing");
+  check_sorted(in_vec.data, "merge_sort_key");
+  OBL(sexp_context_saves(ctx) == NULL, "gc.release: preserve chain restored");
+  REACH();
+}
+#endif
 
 void h_sort_x(void) {                      /* the API entry: (sort! vec less) */
   sexp ctx; setup(&ctx);
